@@ -281,6 +281,9 @@ def new_engine(mir, extra_models=()):
 def find_fn(E, last, pred=None, file=None):
     """find a crate function by last path segment (+ predicate on the Fn)"""
     c = [f for f in E.by_last.get(last, []) if (pred is None or pred(f)) and (file is None or f'src/{file}' in f.name or f.name.startswith(file.replace('.rs', '') + '::'))]
+    if len(c) > 1:
+        free = [f for f in c if '<impl' not in f.name and '::Stream::' not in f.name and '{closure' not in f.name]
+        if len(free) == 1: c = free
     if len(c) != 1: raise Missing(f'function {last} not found uniquely ({len(c)} candidates) — was it renamed or restructured?')
     return c[0]
 
